@@ -15,12 +15,25 @@ func (g *gen) pick(ss ...string) string { return ss[g.r.Intn(len(ss))] }
 
 var commentBodies = []string{"", " x", " import \"fake\"", " \"quoted\" `raw`", " * / not end", " /* nested-looking", " package q", "\timport (", " é ü", " // inner", "*", "**", " ' "}
 
+// long: once in a while a comment (or a path) is as long as, or longer than, the buffers a
+// reader is likely to use (4096 for bufio): sizes around the boundary and well beyond it.
+func (g *gen) long() string {
+	n := []int{4080, 4090, 4093, 4094, 4095, 4096, 4097, 4100, 8191, 8192, 8193, 20000}[g.r.Intn(12)]
+	return strings.Repeat(g.pick("x", "é", "ab ", "/"), n)[:n]
+}
+
 func (g *gen) lineComment() string {
+	if g.r.Intn(120) == 0 {
+		return "//" + g.long() + "\n"
+	}
 	return "//" + g.pick(commentBodies...) + "\n"
 }
 
 func (g *gen) blockComment(allowNL bool) string {
 	b := g.pick(commentBodies...)
+	if g.r.Intn(120) == 0 {
+		b = g.long()
+	}
 	b = strings.ReplaceAll(b, "*/", "* /")
 	if allowNL && g.r.Intn(3) == 0 {
 		b += "\n" + g.pick(commentBodies...)
@@ -69,6 +82,9 @@ var paths = []string{"a", "fmt", "a/b", "github.com/x/y", "a.b/c-d", "C", "x_y",
 
 func (g *gen) stringLit() string {
 	p := g.pick(paths...)
+	if g.r.Intn(200) == 0 {
+		p = "long/" + strings.Repeat("p", []int{4085, 4090, 4091, 4092, 4096, 9000}[g.r.Intn(6)])
+	}
 	switch g.r.Intn(6) {
 	case 0:
 		return "`" + p + "`"
